@@ -116,7 +116,7 @@ def run(ctx):
     ctx.require("style_observed", 10)
     ctx.require("parse.docstring", 10)
     n = ctx.n(6000, 160000)
-    g = IRGen(ctx.rng, knobs(hostile_strings=not ctx.quick(), p_doc_states_default=0.15))
+    g = IRGen(ctx.rng, knobs(hostile_strings=not ctx.quick(), p_doc_states_default=0.15, p_hyphen_tokens=0.3))
     try:
         for i in range(n):
             ir, feat = g.ir()
